@@ -133,5 +133,5 @@ MANIFEST = {
             "controlled: retention by age is exercised only in clock-insensitive regimes. Concurrency of two writers "
             "(DESIGN F-C18-1) is not part of this check.",
     "technique": "Lean 4 proof (invariants over histories, prefix-closed plans, witnesses by decide) + correspondence check incl. "
-                 "fault injection at file-system mutations + oracle (simulated client) on the implementation's files + source translator (body of find_deltas_truncate_age as a Lean definition, gen_find_deltas_truncate_age_eq_model)",
+                 "fault injection at file-system mutations + oracle (simulated client) on the implementation's files + source translator (body of find_deltas_truncate_age as a Lean definition, gen_find_deltas_truncate_age_eq_model; deltas_truncate_size = take (keepBySize ..): gen_deltas_truncate_size_eq_model; update_rrdp_needed characterised: gen_update_rrdp_needed_iff)",
 }
